@@ -373,9 +373,72 @@ def check_c09(tier: str) -> int:
             script += to_stimuli(inst, noise_messages(inst, rng, stop))
         correspond(ck, gen, inst, script, "handshake")
     deadline_race(ck, dist, tier)
+    sessions(ck, dist, tier)
     ck.extra["input_distribution"] = dict(sorted(dist.items()))
     ck.sample("AT5, 2 ACs (numbers 3, 9), 0 zones: names and zone-status requests echoed back to 0xB0; init() True")
     return ck.finish()
+
+
+def sessions(ck, dist, tier: str) -> None:
+    """init() is stated for any client against any answering console - also for a client object that has a past: an
+    earlier session that was shut down while connected, while the connection attempt was still pending (SYN unanswered),
+    during the retry delay after a refusal, or in the middle of the handshake.  The next init() against an answering
+    console must complete like the first init() of a fresh object: True, within the time limit, model as described."""
+    pasts = ["completed", "attempt-pending", "retry-delay", "mid-handshake", "completed-twice"]
+    for gen in (4, 5):
+        for past in pasts:
+            for n_acs, n_zones in ((1, 2), (2, 5)):
+                inst = console.simple_installation(gen, n_acs, n_zones)
+                rig = console.ApiRig(inst)
+                try:
+                    ck.count()
+                    dist[f"session_after_{past}"] += 1
+                    replay = {"kind": "session", "gen": gen, "past": past, "acs": n_acs, "zones": n_zones,
+                              "trigger": {"class": "session", "gen": gen, "past": past}}
+                    if past in ("completed", "completed-twice"):
+                        for _ in range(2 if past == "completed-twice" else 1):
+                            r, _t = rig.init()
+                            rig.advance(3 * TICK)
+                            rig.run(rig.at.shutdown())
+                    elif past == "attempt-pending":
+                        rig.net.latency_ticks = 3 * TICK          # the console takes 3 s to accept
+                        t = rig.start(rig.at.init())
+                        rig.advance(TICK)
+                        rig.run(rig.at.shutdown())
+                        rig.advance(10 * TICK)
+                        rig.net.latency_ticks = 1
+                        if not t.done():
+                            t.cancel()
+                            rig.pump()
+                    elif past == "retry-delay":
+                        rig.net.accept = False
+                        t = rig.start(rig.at.init())
+                        rig.advance(TICK // 2)
+                        rig.run(rig.at.shutdown())
+                        rig.advance(10 * TICK)
+                        rig.net.accept = True
+                    else:
+                        rig.console.silent_from = 3
+                        t = rig.start(rig.at.init())
+                        rig.advance(TICK)
+                        rig.run(rig.at.shutdown())
+                        rig.advance(10 * TICK)
+                        rig.console.silent_from = None
+                    m0 = len(rig.console.requests)
+                    r, took = rig.init()
+                    if r != ("ok", True):
+                        ck.violation("init() on a client with an earlier session does not complete against an answering console",
+                                     dict(replay, failure=f"init() -> {r} after {took / TICK:.2f} s; requests seen by the console in this "
+                                                          f"session: {[q[2] for q in rig.console.requests[m0:]][:8]}"))
+                        continue
+                    expect_init_errors(rig)
+                    got, want = all_getters(rig), expected_getters(rig)
+                    bad = [k for k in got if got[k] != want.get(k)]
+                    if bad or set(got) != set(want):
+                        ck.violation("the object model after a second session differs from the installation",
+                                     dict(replay, failure=f"{bad[:1] or sorted(set(got) ^ set(want))[:3]}"))
+                finally:
+                    rig.close()
 
 
 def deadline_race(ck, dist, tier: str) -> None:
@@ -528,6 +591,33 @@ def check_c10(tier: str) -> int:
                 T.push_ac_status(rig, dataclasses.replace(inst.ac_status[spec.number], error_code=code))
                 T.push_error(rig, spec.number, text)
                 compare(rig, {"gen": gen, "frame": f"error code {code} text {text!r}"})
+            # a status frame with a new fault code arrives while the transport is under back-pressure: the client's request
+            # for the fault text waits, the report itself is already the console's latest - the getters show it during the
+            # wait (with no text yet), and the text once the request could be written and was answered
+            conn_ = rig.net.current()
+            if conn_ is not None:
+                proto_ = conn_.transport.get_protocol()
+                for step in range(3):
+                    ck.count()
+                    dist[f"at{gen}_status_while_writes_wait"] += 1
+                    cur_ = inst.ac_status[spec.number]
+                    nxt_ = dataclasses.replace(rand_ac_status(inst, rng, spec.number), error_code=11 + step)
+                    inst.errors[spec.number] = f"E{11 + step}"
+                    # (the text of the previous fault, if one was present, stays until the new one is answered)
+                    before_ = rig.client_err.get(spec.number) if cur_.error_code else None
+                    proto_.pause_writing()
+                    try:
+                        T.push_ac_status(rig, nxt_)
+                        held = rig.client_err.get(spec.number)
+                        rig.client_err[spec.number] = before_
+                        compare(rig, {"gen": gen, "frame": f"{nxt_!r} received while the transport is paused (the request for the fault text waits)"})
+                    finally:
+                        proto_.resume_writing()
+                    rig.pump()
+                    rig.client_err[spec.number] = held
+                    compare(rig, {"gen": gen, "frame": f"{nxt_!r}, after the transport resumed and the fault text was answered"})
+                T.push_ac_status(rig, dataclasses.replace(inst.ac_status[spec.number], error_code=0))
+                inst.errors[spec.number] = None
             # error text against a console that leaves the client's error-text requests unanswered: a text is shown only
             # while an error code is present, and a text received earlier never comes back with a later error
             rig.console.mute = {"error_info"}
@@ -833,9 +923,69 @@ def check_c12(tier: str) -> int:
             ck.violation("client core model and implementation disagree",
                          dict(replay, kind="correspondence", first_difference=d,
                               correspondence=f"coq/api/Core.v + Client{gen}.v (model case 60) vs pyairtouch.at{gen}.api"), found_input=False)
+    in_flight_subscriptions(ck, dist)
     ck.extra["input_distribution"] = dict(sorted(dist.items()))
     ck.sample("zone 2 of AC 0 changes: zone subscriber and AC general subscribers invoked, AC-state-only subscriber not")
     return ck.finish()
+
+
+def in_flight_subscriptions(ck, dist) -> None:
+    """unsubscribe() while a change is being processed.  The transport is under back-pressure; an AC status with a new
+    fault code arrives, the client's request for the fault text waits; meanwhile the application unsubscribes one callback.
+    'Unsubscribing stops further calls': that callback is not invoked once the transport resumes; a callback that stays
+    subscribed is invoked exactly once for the change."""
+    import dataclasses
+    for gen in (4, 5):
+        for which in ("general", "ac-state"):
+            inst = console.simple_installation(gen, 1, 2)
+            rig = console.ApiRig(inst)
+            try:
+                r, _ = rig.init()
+                if r != ("ok", True):
+                    init_failed(ck, rig, r, "unsubscribe while a change is in flight (C12)")
+                    continue
+                ck.count()
+                dist["unsubscribe_while_change_in_flight"] += 1
+                ac = rig.at.air_conditioners[0]
+                n = inst.acs[0].number
+                calls = {"leaver": 0, "stayer": 0}
+
+                async def leaver(_id):
+                    calls["leaver"] += 1
+
+                async def stayer(_id):
+                    calls["stayer"] += 1
+                sub, unsub = (ac.subscribe, ac.unsubscribe) if which == "general" else (ac.subscribe_ac_state, ac.unsubscribe_ac_state)
+                sub(leaver)
+                sub(stayer)
+                proto = rig.net.current().transport.get_protocol()
+                st = inst.ac_status[n]
+                new = dataclasses.replace(st, error_code=21, set_point=(st.set_point + 1) if gen == 4 else round(st.set_point * 10 + 10) / 10.0)
+                proto.pause_writing()
+                try:
+                    inst.ac_status[n] = new
+                    rig.console.push(inst.ac_status_message(only={n}))
+                    rig.pump()
+                    early = dict(calls)
+                    unsub(leaver)
+                finally:
+                    proto.resume_writing()
+                rig.pump()
+                rig.advance(2 * TICK)
+                late = calls["leaver"] - early["leaver"]
+                replay = {"kind": "notifications-in-flight", "gen": gen, "subscriber_set": which,
+                          "trigger": {"class": "notify-in-flight", "gen": gen},
+                          "history": "two callbacks subscribed; transport paused; AC status with a new fault code and set-point received; "
+                                     "first callback unsubscribed; transport resumed",
+                          "invocations_before_unsubscribe": early, "invocations_in_total": dict(calls)}
+                if late:
+                    ck.violation("a callback was invoked after its unsubscribe() had returned",
+                                 dict(replay, failure=f"{late} invocation(s) of the unsubscribed callback after unsubscribe() returned"))
+                if calls["stayer"] != 1:
+                    ck.violation("subscriber invocations differ from what the property requires",
+                                 dict(replay, failure=f"the callback that stayed subscribed was invoked {calls['stayer']} times for one change"))
+            finally:
+                rig.close()
 
 
 # ================================================================================ C14
